@@ -44,56 +44,60 @@ def rule_t1(chk: Check, ix: Index):
     if len(loops) != 1:
         raise AnalysisError("the per-line scan loop `while state.pos < state.max` of _tokenize was not found")
     loop = loops[0]
-    # the no-match fallback: a branch that yields an ERRORTOKEN and increments state.pos
-    fallback: Optional[ast.If] = None
-    guard: Optional[ast.expr] = None
-    for n in ast.walk(loop):
-        if isinstance(n, ast.If):
-            for test, body in _branches(n):
-                if any(isinstance(x, ast.Attribute) and x.attr == "ERRORTOKEN" for s in body for x in ast.walk(s)):
-                    fallback, guard = (n, test)
-                    fb_body = body
+    # One iteration of the scan loop as a path set.  On every path: a token came out of the master pattern, or the position is
+    # known to have moved since a snapshot taken at the top of the iteration, or the fallback runs — it emits an ERRORTOKEN for
+    # the character nothing matched and steps over it.
+    from ..pyflow import stmt_paths
+    import re as _re
     chk.count("T1-scan-progress")
-    if fallback is None:
-        chk.fail("T1-scan-progress", "_tokenize:fallback", where0,
-                 "the scan loop has no ERRORTOKEN fallback for characters nothing matches")
-        return
-    # (iii) fallback increments
-    inc = [s for s in fb_body if isinstance(s, ast.AugAssign) and is_pos_attr(s.target) and isinstance(s.op, ast.Add)
-           and isinstance(s.value, ast.Constant) and isinstance(s.value.value, int) and s.value.value >= 1]
-    chk.require(bool(inc), "T1-scan-progress", "_tokenize:fallback-increments", f"{f.rel}:{fallback.lineno}",
-                "the ERRORTOKEN fallback must advance state.pos by at least one character")
-    # (i) freshness of the snapshot compared in the fallback guard
-    chk.count("T1-scan-progress")
-    key = "_tokenize:snapshot-fresh"
-    if guard is None:
-        chk.ok("T1-scan-progress", key, f"{f.rel}:{fallback.lineno}", "fallback is unconditional")
-    else:
-        snap = _snapshot_name(guard)
-        if snap is None:
-            chk.fail("T1-scan-progress", key, f"{f.rel}:{fallback.lineno}",
-                     f"fallback guard `{norm_stmt(guard)}` is not a comparison of state.pos with a local snapshot")
-        else:
-            # the snapshot must be assigned from state.pos inside the loop body, before any statement that calls
-            # something taking `state` (those may move state.pos)
-            first_mover = None
-            fresh = False
-            for st in loop.body:
-                if isinstance(st, ast.Assign) and len(st.targets) == 1 and isinstance(st.targets[0], ast.Name) \
-                        and st.targets[0].id == snap and is_pos_attr(st.value) and first_mover is None:
-                    fresh = True
-                    break
-                if any(isinstance(c, ast.Call) and any(isinstance(a, ast.Name) and a.id == "state" for a in c.args)
-                       for c in ast.walk(st) if isinstance(c, ast.Call)) or any(
-                        isinstance(x, (ast.Assign, ast.AugAssign)) and any(is_pos_attr(t) for t in (
-                            x.targets if isinstance(x, ast.Assign) else [x.target])) for x in ast.walk(st)):
-                    first_mover = st
-                    break
-            chk.require(fresh, "T1-scan-progress", key, f"{f.rel}:{loop.lineno}",
-                        f"the fallback compares state.pos with `{snap}`, but `{snap}` is not re-taken from state.pos at the top "
-                        f"of each iteration (before `{norm_stmt(first_mover)[:60] if first_mover else '...'}`): once a token has "
-                        f"advanced state.pos the stale snapshot never equals it again, the fallback never fires and an "
-                        f"unmatched character loops forever")
+    try:
+        paths = stmt_paths(loop.body, opaque_loops=True)
+    except AnalysisError as e:
+        chk.undecided("T1-scan-progress", "_tokenize:fallback", where0, f"scan loop body not analysable: {e}")
+        paths = set()
+    have_fallback = False
+    stuck, stale, no_inc = [], [], []
+    for pth in paths:
+        items = [x for x in pth if x[0] in ("cond", "do")]
+        conds = [(x[1], x[2]) for x in pth if x[0] == "cond"]
+        eff = [x[1] for x in pth if x[0] == "do"]
+        got_token = any((("next_psuedo_matches(state)" in c or _re.fullmatch(r"\w+( is not None)?", c)) and t is True and "state.pos" not in c)
+                        or (_re.fullmatch(r"\w+ is None", c) and t is False) for c, t in conds)
+        moved = None
+        snap = None
+        for c, t in conds:
+            m = _re.fullmatch(r"(\w+) (==|!=) state\.pos", c) or _re.fullmatch(r"state\.pos (==|!=) (\w+)", c)
+            if m:
+                g = m.groups()
+                snap, op = (g[0], g[1]) if g[1] in ("==", "!=") else (g[1], g[0])
+                moved = (t is True) == (op == "!=")
+        fell_back = any("Token.ERRORTOKEN" in e for e in eff)
+        if fell_back:
+            have_fallback = True
+            if not any(_re.fullmatch(r"state\.pos \+= [1-9]\d*", e) for e in eff):
+                no_inc.append(eff)
+        if snap is not None:
+            # the snapshot is taken from state.pos in this iteration, before anything that may move the position
+            idx = next((i for i, x in enumerate(items) if x[0] == "do" and x[1] == f"{snap} = state.pos"), None)
+            movers = [i for i, x in enumerate(items) if "(state)" in x[1] or _re.search(r"state\.pos (\+)?= ", x[1])]
+            if idx is None or any(i < idx for i in movers):
+                stale.append(snap)
+        if not (got_token or moved or fell_back):
+            stuck.append(conds)
+    if paths:
+        chk.require(have_fallback, "T1-scan-progress", "_tokenize:fallback", where0,
+                    "the scan loop has no ERRORTOKEN fallback for characters nothing matches")
+        chk.count("T1-scan-progress")
+        chk.require(not no_inc, "T1-scan-progress", "_tokenize:fallback-increments", where0,
+                    "the ERRORTOKEN fallback must advance state.pos by at least one character")
+        chk.count("T1-scan-progress")
+        chk.require(not stale, "T1-scan-progress", "_tokenize:snapshot-fresh", f"{f.rel}:{loop.lineno}",
+                    f"the loop compares state.pos with `{stale[0] if stale else ''}`, which is not re-taken from state.pos at the top of each "
+                    f"iteration (before anything that can move the position): once a token has advanced state.pos the stale snapshot "
+                    f"never equals it again, the fallback never fires and an unmatched character loops forever")
+        chk.count("T1-scan-progress")
+        chk.require(not stuck, "T1-scan-progress", "_tokenize:every-path-progresses", where0,
+                    f"an iteration can end without a token, without the position having moved and without the fallback: {stuck[:1]}")
     # (ii) monotone writes to .pos everywhere in tokenize.py
     mod = ix.modules[repo.TOKENIZE]
     for g in [x for x in ix.funcs.values() if x.rel == repo.TOKENIZE]:
